@@ -20,11 +20,11 @@ THEOREMS = [
     "c11_parse_render", "c11_exactly_one_terminal", "c11_failure_only_synthesised", "c11_success_passthrough",
     "c11_json_body_messages", "c11_sse_body_messages", "c11_no_id_for_notification", "c11_failures_independent",
     "c11_every_request_processed", "c11_session_header_latest", "c11_repeated_failures",
-    "c11_batch_invalid_member_skipped",
+    "c11_batch_invalid_member_skipped", "c11_encoding_twins",
 ]
 # not stated by the property text (Props/C11Supp.lean): reported as INFO, never a verdict
 SUPP_THEOREMS = [
-    "c11_options_irrelevant", "c11_instances_independent", "c11_close",
+    "c11_ctype_case_insensitive", "c11_options_irrelevant", "c11_instances_independent", "c11_close",
     "c11_post_protocol_headers", "c11_post_session_header", "c11_post_authorization", "c11_params_auth_headers",
     "c11_post_custom_headers", "c11_params_accept_iff", "c11_params_url_normalised",
     "c11_stream_chunk_independent", "c11_stream_plain_encodings",
@@ -73,8 +73,8 @@ def _failure_class(case, j):
     cls = e["cls"]
     cls = GROUP.get(cls, cls)
     if cls == "empty-body":
-        cls += "/" + ("unlabelled" if r["b"]["ct"] in ("other", "absent") else r["b"]["ct"])
-        if r["b"]["ct"] in ("other", "absent") and r["id"] is not None and not G.idval(r["id"]):
+        cls += "/" + ("unlabelled" if G.ct_class(r["b"]) in ("other", "absent") else G.ct_class(r["b"]))
+        if G.ct_class(r["b"]) in ("other", "absent") and r["id"] is not None and not G.idval(r["id"]):
             cls += "/falsy-id"
     return cls
 
@@ -124,12 +124,68 @@ def oracle_close(case, obs):
     return None
 
 
+def _no_numbers(v):
+    """numbers are opaque here (which decoder read them decides their precision: C17's subject, not C11's)"""
+    if isinstance(v, bool) or v is None or isinstance(v, str):
+        return v
+    if isinstance(v, (int, float)):
+        return "<number>"
+    if isinstance(v, list):
+        return [_no_numbers(x) for x in v]
+    if isinstance(v, dict):
+        return {k: _no_numbers(x) for k, x in v.items()}
+    return str(v)
+
+
+def _tag_of(payload):
+    if not isinstance(payload, dict):
+        return None
+    if isinstance(payload.get("tag"), str):
+        return payload["tag"]
+    for k in ("data", "params"):
+        if isinstance(payload.get(k), dict) and isinstance(payload[k].get("tag"), str):
+            return payload[k]["tag"]
+    return None
+
+
+def oracle_twins(case, obs):
+    """one message through every body encoding (one request per encoding): if any encoding delivers the server's
+    message, the message is a JSON-RPC message the other bodies contain too — every encoding must deliver it, and
+    with the same text content"""
+    T = obs["transcript"]
+    n = len(case["reqs"])
+    seen = []
+    for j, r in enumerate(case["reqs"]):
+        served = [m for m in T if m["kind"] in TERMINAL and m["id"] == r["id"] and (_tag_of(m["payload"]) or "").startswith("tw")]
+        seen.append((j, bool(served), canon(_no_numbers(served[0]["payload"])) if served else None))
+    delivered = [x for x in seen if x[1]]
+    if delivered and len(delivered) != n:
+        lost = [x[0] for x in seen if not x[1]]
+        enc = [case["reqs"][j]["b"]["body"]["enc"] + "/" + case["reqs"][j]["b"]["ct"] for j in lost]
+        return ("lost-message/encoding-twins", f"the same message is delivered from {len(delivered)} of {n} body encodings but not from {enc}",
+                {"requests": lost, "delivered_from": [x[0] for x in delivered]})
+    if len({x[2] for x in delivered}) > 1:
+        return ("encoding-twins-differ", "the same message is delivered with different (non-numeric) content depending on the body encoding", {"equal": True})
+    # a notification carried next to the response: from every encoding or from none
+    notes = [m for m in T if m["kind"] == "notification" and (_tag_of(m["payload"]) or "").startswith("tw")
+             and not _tag_of(m["payload"]).endswith("-b") and "v" in (m["payload"].get("params") or {})]
+    if notes and len(notes) != n:
+        return ("lost-message/encoding-twins", f"the same notification is delivered {len(notes)} times from {n} body encodings", {"count": n})
+    if len({canon(_no_numbers(m["payload"])) for m in notes}) > 1:
+        return ("encoding-twins-differ", "the same notification is delivered with different (non-numeric) content depending on the body encoding", {"equal": True})
+    return None
+
+
 def oracle(case, obs):
     """The property, read off the implementation's observation alone."""
     if obs.get("crash"):
         return ("client-crashed", f"http_client raised {obs['crash']}", {"fence": True})
     if case.get("leave_at") is not None:
         return oracle_close(case, obs)
+    if case.get("twins") and not obs.get("crash"):
+        r3 = oracle_twins(case, obs)
+        if r3 is not None:
+            return r3
     if case.get("close_rd_after") is not None:
         return None   # the caller stopped listening: nothing is observable any more, only "does not raise / hang on exit"
     if obs.get("round2") is not None:
@@ -350,7 +406,7 @@ class Hardening(_Base):
             "have .text) and the pending-future branch 473-480 (dead: the unified message class always has a `method` attribute); "
             "the hard/* buckets of the distribution name the sweep classes")
         return G.decorate(G.hardening(ctx.sub_rng("c11-hard", budget), budget), salt=7) + G.hardening2(ctx.sub_rng("c11-hard2", budget), budget) \
-            + G.hardening3(ctx.sub_rng("c11-hard3", budget), budget)
+            + G.hardening3(ctx.sub_rng("c11-hard3", budget), budget) + G.decorate(G.twin_cases(budget == "quick"), salt=11)
 
     def kind(self, case, o):
         return "hard/" + case.get("hk", "?") + ("/debug-logging" if case.get("debug") else "")
